@@ -57,6 +57,18 @@ def explicit_ids(spec):
 # --------------------------------------------------------------------------
 # builder (public constructors only)
 
+_ITEM = {}
+
+
+def _item_class(puan):
+    """a user-defined subclass of puan.variable (the repository's tests use such leaves: `class Fruit(puan.variable)`)"""
+    if puan not in _ITEM:
+        class Item(puan.variable):
+            pass
+        _ITEM[puan] = Item
+    return _ITEM[puan]
+
+
 def build(ns, spec, env, cache=None):
     puan, pg = ns.puan, ns.pg
     cache = {} if cache is None else cache
@@ -66,7 +78,8 @@ def build(ns, spec, env, cache=None):
             return spec["id"]
         key = ("var", spec["id"], spec.get("occ", 0))
         if key not in cache:
-            cache[key] = puan.variable(spec["id"], bounds=(P(env, spec.get("lo", 0)), P(env, spec.get("hi", 1))))
+            cls = _item_class(puan) if spec.get("sub") else puan.variable
+            cache[key] = cls(spec["id"], bounds=(P(env, spec.get("lo", 0)), P(env, spec.get("hi", 1))))
         return cache[key]
     ch = [build(ns, c, env, cache) for c in spec["ch"]]
     var = spec.get("id")
